@@ -81,7 +81,8 @@ Heap0 == [mem    |-> [o \in Obj |-> "none"],
 Led0  == [rootS |-> Zero1, rootW |-> Zero1,
           valS  |-> Zero2, valW  |-> Zero2,
           rec   |-> Zero2, recL  |-> Zero1,
-          raw   |-> Zero1,
+          raw   |-> Zero1,             \* strong handles converted to raw pointers (into_raw)
+          rawW  |-> Zero1,             \* Weak handles converted to raw pointers (Weak::into_raw)
           made  |-> False1,            \* object was created
           gone  |-> False1,            \* value was moved out to the caller (try_unwrap/make_mut)
           fresh |-> 0,                 \* allocation the call in progress creates (make_mut), else 0
@@ -143,7 +144,7 @@ Detached(g, x)  == {o \in Made(g) : x.nd[o] = 0 /\ g.gone[o]}
 
 \* all existing strong handles to o (wherever held, including by values under destruction)
 HandlesIn(g, o) == g.rootS[o] + g.raw[o] + SumObj([a \in Obj |-> g.valS[a][o]])
-WeakHandlesIn(g, o) == g.rootW[o] + SumObj([a \in Obj |-> g.valW[a][o]])
+WeakHandlesIn(g, o) == g.rootW[o] + g.rawW[o] + SumObj([a \in Obj |-> g.valW[a][o]])
 Handles(o)     == HandlesIn(led, o)
 WeakHandles(o) == WeakHandlesIn(led, o)
 
@@ -258,6 +259,7 @@ LedCall(g, op, a, b) ==
     [] op = "StoreWeak"  -> [g EXCEPT !.rootW[b] = @ - 1]
     [] op = "TakeWeak"   -> [g EXCEPT !.valW[a][b] = @ - 1]
     [] op = "IntoRaw"    -> [g EXCEPT !.rootS[a] = @ - 1, !.raw[a] = @ + 1]
+    [] op = "WeakIntoRaw" -> [g EXCEPT !.rootW[a] = @ - 1, !.rawW[a] = @ + 1]
     [] op = "DecStrong"  -> [g EXCEPT !.raw[a] = @ - 1]
     \* make_mut through a root handle to a; b = id of the fresh allocation (0: none needed).
     \* Other strong handles exist: the value is CLONED into b and the old handle is dropped.
@@ -305,6 +307,7 @@ LedRet(g, op, a, b, d, ret) ==
                              ELSE g
     [] op \in {"MakeMut", "MakeMutS"} -> [g EXCEPT !.fresh = 0]
     [] op = "FromRaw"     -> [g EXCEPT !.raw[a] = @ - 1, !.rootS[a] = @ + 1]
+    [] op = "WeakFromRaw" -> [g EXCEPT !.rawW[a] = @ - 1, !.rootW[a] = @ + 1]
     [] op = "IncStrong"   -> IF ret = "ok" THEN [g EXCEPT !.raw[a] = @ + 1] ELSE g
     [] op = "DropDetached" -> [g EXCEPT !.unw = @ \ {a}]
     [] OTHER -> g
@@ -596,6 +599,13 @@ OpIntoRaw(o, top, base) ==
 OpFromRaw(o, top, base) ==
   /\ led.raw[o] > 0
   /\ Done(heap, "FromRaw", o, 0, NoScript, "ok", top, base)
+\* Weak::into_raw / Weak::from_raw (src/rc.rs:1396-1430): pure pointer conversions
+OpWeakIntoRaw(o, top, base) ==
+  /\ led.rootW[o] > 0
+  /\ Done(heap, "WeakIntoRaw", o, 0, NoScript, "ok", top, base)
+OpWeakFromRaw(o, top, base) ==
+  /\ led.rawW[o] > 0
+  /\ Done(heap, "WeakFromRaw", o, 0, NoScript, "ok", top, base)
 OpIncStrong(o, top, base) ==
   /\ led.raw[o] > 0 /\ Handles(o) < Caps.strong
   /\ DoClone(o, "IncStrong", o, 0, ObFor(top, "IncStrong", o, 0), base)
@@ -645,6 +655,8 @@ CallOp(op, a, b, d, top, base) ==
     [] op = "IntoRaw"     -> OpIntoRaw(a, top, base)
     [] op = "FromRaw"     -> OpFromRaw(a, top, base)
     [] op = "IncStrong"   -> OpIncStrong(a, top, base)
+    [] op = "WeakIntoRaw" -> OpWeakIntoRaw(a, top, base)
+    [] op = "WeakFromRaw" -> OpWeakFromRaw(a, top, base)
     [] op = "DecStrong"   -> OpDecStrong(a, top, base)
     [] op = "DropDetached" -> OpDropDetached(a, top, base)
     [] op = "Misc"        -> OpMisc(top, base)
@@ -934,6 +946,8 @@ Call ==
      \/ En("IntoRaw")     /\ \E o \in Obj : OpIntoRaw(o, TRUE, <<>>)
      \/ En("FromRaw")     /\ \E o \in Obj : OpFromRaw(o, TRUE, <<>>)
      \/ En("IncStrong")   /\ \E o \in Obj : OpIncStrong(o, TRUE, <<>>)
+     \/ En("WeakIntoRaw") /\ \E o \in Obj : OpWeakIntoRaw(o, TRUE, <<>>)
+     \/ En("WeakFromRaw") /\ \E o \in Obj : OpWeakFromRaw(o, TRUE, <<>>)
      \/ En("DecStrong")   /\ \E o \in Obj : OpDecStrong(o, TRUE, <<>>)
      \/ En("DropDetached") /\ \E o \in Obj : OpDropDetached(o, TRUE, <<>>)
      \/ En("Misc")        /\ OpMisc(TRUE, <<>>)
